@@ -1,10 +1,13 @@
 package masks
 
 import (
+	"strings"
+
 	"github.com/mennanov/fmutils"
 	"google.golang.org/grpc/codes"
 	"google.golang.org/grpc/status"
 	"google.golang.org/protobuf/proto"
+	"google.golang.org/protobuf/reflect/protoreflect"
 	"google.golang.org/protobuf/types/known/fieldmaskpb"
 )
 
@@ -45,7 +48,7 @@ func (r *ResponseFilter) Filter(msg proto.Message) {
 		proto.Reset(msg)
 		return
 	}
-	fmutils.Filter(msg, normalizedPaths(r.fields.GetPaths()))
+	fmutils.Filter(msg, readPaths(msg, r.fields.GetPaths()))
 }
 
 // FilterClone is like Filter but clones and returns a new msg instead of modifying the original.
@@ -62,8 +65,42 @@ func (r *ResponseFilter) FilterClone(msg proto.Message) proto.Message {
 		return clone
 	}
 	clone := proto.Clone(msg)
-	fmutils.Filter(clone, normalizedPaths(r.fields.GetPaths()))
+	fmutils.Filter(clone, readPaths(clone, r.fields.GetPaths()))
 	return clone
+}
+
+// readPaths returns the paths to filter msg by: a normalized copy of paths in which a path that
+// continues below a field with nothing to select inside - a scalar, a map or a repeated scalar - ends
+// at that field. Such a path is invalid (see Validate) but reads are not always validated, and fmutils
+// panics when asked to descend into a map or a repeated scalar; the whole field is selected instead.
+func readPaths(msg proto.Message, paths []string) []string {
+	md := msg.ProtoReflect().Descriptor()
+	out := make([]string, len(paths))
+	for i, path := range paths {
+		out[i] = selectablePath(md, path)
+	}
+	return normalizedPaths(out)
+}
+
+func selectablePath(md protoreflect.MessageDescriptor, path string) string {
+	for start := 0; start < len(path); {
+		end := len(path)
+		if i := strings.IndexByte(path[start:], '.'); i >= 0 {
+			end = start + i
+		}
+		if name := path[start:end]; name != "" { // fmutils ignores empty segments
+			fd := md.Fields().ByName(protoreflect.Name(name))
+			if fd == nil {
+				return path // an unknown field selects nothing
+			}
+			if fd.IsMap() || fd.Message() == nil {
+				return path[:end]
+			}
+			md = fd.Message()
+		}
+		start = end + 1
+	}
+	return path
 }
 
 // normalizedPaths returns a sorted copy of paths without the paths that are already covered by a
